@@ -337,9 +337,57 @@ class Check(common.Check):
             self._defaults = out
         return self._defaults
 
+    # ---- multichannel expansion: list-valued levels / times / constructor parameters
+    MC_CTORS = ('new', 'new', 'perc', 'linen', 'asr', 'triangle', 'sine')
+
+    def gen_mc_case(self, rng):
+        for _ in range(20):
+            c = self.gen_case(rng)
+            if c['ctor'] in self.MC_CTORS and (c['ctor'] != 'new' or len(c['levels']) >= 2):
+                break
+        else:
+            return None
+
+        def widen(x):
+            k = rng.choice([2, 2, 3, 4])
+            base = Fraction(x)
+            return [fq(base + Fraction(rng.randint(0, 6), 4)) for _ in range(k)]
+        keys = ['levels', 'times'] if c['ctor'] == 'new' else ['args']
+        done = False
+        for key in keys:
+            vals = list(c.get(key, []))
+            for i in range(len(vals)):
+                if rng.random() < 0.4:
+                    vals[i] = widen(vals[i])
+                    done = True
+            c[key] = vals
+        if not done:
+            key = keys[0]
+            if not c[key]:
+                return None
+            c[key][0] = widen(c[key][0])
+        c['mc'] = True
+        c['at'] = c.get('at', [])[:6]
+        return c
+
+    @staticmethod
+    def channels(case):
+        """flop: channel i takes element i mod len of every list-valued entry"""
+        keys = [k for k in ('levels', 'times', 'args') if k in case]
+        n = max([len(v) for k in keys for v in case[k] if isinstance(v, list)] or [1])
+        out = []
+        for i in range(n):
+            ch = {k: v for k, v in case.items() if k != 'mc'}
+            for k in keys:
+                ch[k] = [v[i % len(v)] if isinstance(v, list) else v for v in case[k]]
+            out.append(ch)
+        return out
+
     def gen(self, rng, n):
         cases = [c for c in (self.default_case(k) for k in CTORS) if c]
-        cases += [self.gen_case(rng) for _ in range(n)]
+        for _ in range(n):
+            c = self.gen_mc_case(rng) if rng.random() < 0.12 else None
+            cases.append(c or self.gen_case(rng))
         return cases
 
     # ------------------------------------------------------------------ runners
@@ -350,18 +398,47 @@ class Check(common.Check):
         return res
 
     def model(self, cases):
-        out, err = common.run_driver('Sc3Verif/C19/Driver.lean', [json.dumps(c) for c in cases])
+        lines, spans = [], []
+        for c in cases:                      # a multichannel case is one model run per channel
+            chs = self.channels(c) if c.get('mc') else [c]
+            spans.append(len(chs) if c.get('mc') else 0)
+            lines += [json.dumps(ch) for ch in chs]
+        out, err = common.run_driver('Sc3Verif/C19/Driver.lean', lines)
         if out is None:
             raise RuntimeError('driver failed: ' + err)
-        res = []
+        flat = []
         for line in out:
             try:
-                res.append(json.loads(line))
+                flat.append(json.loads(line))
             except ValueError:
                 raise RuntimeError(f'driver output is not JSON: {line!r}')
+        res, k = [], 0
+        for sp in spans:
+            if sp == 0:
+                res.append(flat[k])
+                k += 1
+            else:
+                res.append({'mc': flat[k:k + sp]})
+                k += sp
         return res
 
     def compare(self, case, io, mo):
+        if case.get('mc'):
+            chs = self.channels(case)
+            fm = io.get('fmt')
+            if isinstance(fm, str):
+                errs = {m.get('fmt') for m in mo['mc'] if isinstance(m.get('fmt'), str)}
+                return None if fm in errs else {'impl': fm, 'model': [m.get('fmt') for m in mo['mc']], 'at': 'fmt'}
+            if len(fm) != len(chs):
+                return {'impl': len(fm), 'model': len(chs), 'at': 'channels'}
+            for i, (ch, m) in enumerate(zip(chs, mo['mc'])):
+                sub = {'fmt': fm[i], 'at': [a[i] if isinstance(a, list) else a for a in io.get('at', [])]}
+                d = self.compare(ch, sub, m)
+                if d:
+                    d['channel'] = i
+                    return d
+            return None
+
         def same(a, b):
             if a == b:
                 return True
@@ -387,6 +464,33 @@ class Check(common.Check):
 
     # ------------------------------------------------------------------ oracle
     def oracle(self, case, out):
+        # the node-parameter entry point: the control value is the EnvGen array of every channel
+        fm, ctl = out.get('fmt'), out.get('ctl')
+        if not isinstance(fm, str) and ctl is not None:
+            want = fm if case.get('mc') else [fm]
+            if ctl != want:
+                return {'what': f'{case["ctor"]}: as a node control value the envelope is sent as {ctl}, its EnvGen '
+                                f'encoding is {want} ({len(want)} channel(s))', 'signature': 'env:control-input'}
+            nums = [x for x in out.get('osc', []) if x not in ('[', ']')]
+            if nums != [v for ch in want for v in ch]:
+                return {'what': f'{case["ctor"]}: OSC argument {out.get("osc")} does not carry the encoding {want}',
+                        'signature': 'env:control-input'}
+        if case.get('mc'):
+            if isinstance(fm, str):
+                return None
+            chs = self.channels(case)
+            if len(fm) != len(chs):
+                return {'what': f'{case["ctor"]}: {len(fm)} channels encoded, the list-valued entries expand to '
+                                f'{len(chs)}', 'signature': 'env:multichannel'}
+            for i, ch in enumerate(chs):
+                sub = {'fmt': fm[i], 'at': [a[i] if isinstance(a, list) else a for a in out.get('at', [])]}
+                v = self.oracle(ch, sub)
+                if v:
+                    v = dict(v)
+                    v['what'] = f'channel {i}: ' + v['what']
+                    return v
+            return None
+
         def bad(law, what):
             return {'what': f'{case["ctor"]}{"()" if case.get("defaults") else ""}: {what}',
                     'signature': f'env:{law}'}
@@ -520,6 +624,8 @@ class Check(common.Check):
 
     # ------------------------------------------------------------------ evidence
     def nontrivial(self, case, out):
+        if case.get('mc'):
+            return not isinstance(out.get('fmt'), str)
         e = doc_env({k: v for k, v in case.items() if k != 'defaults'}) if not case.get('defaults') else None
         if not isinstance(e, dict) or len(e['times']) < 2 or isinstance(out.get('fmt'), str):
             return False
@@ -533,6 +639,9 @@ class Check(common.Check):
         for c, o in zip(cases, outs):
             k = 'ctor:' + c['ctor'] + (':defaults' if c.get('defaults') else '')
             h[k] = h.get(k, 0) + 1
+            if c.get('mc'):
+                h['multichannel'] = h.get('multichannel', 0) + 1
+                continue
             if isinstance(o.get('fmt'), str):
                 h['fmt:' + o['fmt']] = h.get('fmt:' + o['fmt'], 0) + 1
             else:
